@@ -12,6 +12,7 @@ import Goat.Timeout
 import Goat.Protocol
 import Goat.ServerStream
 import Goat.Status
+import Goat.Classify
 open Goat Goat.Drv
 
 def showOptBytes : Option Bytes → String
@@ -108,6 +109,37 @@ def showOutcome : StatusM.Outcome → String
   | .malformed => "malformed"
   | .nilDeref => "nilderef"
 
+def echoView : Classify.ServerView :=
+  { name := "srv".toUTF8.toList.map (·.toNat),
+    services := [("verif.Echo".toUTF8.toList.map (·.toNat),
+                  ["Unary".toUTF8.toList.map (·.toNat)],
+                  ["Bidi", "SrvStream", "CliStream"].map (fun s => s.toUTF8.toList.map (·.toNat)))] }
+
+/-- id,hdr,method,dst,meta,body,trailer,reset -/
+def parseSeqEnv (s : String) : Option Env :=
+  match s.splitOn "," with
+  | [id, hd, m, d, mt, b, t, r] => do
+    let id ← id.toNat?
+    let m ← parseHex m; let d ← parseHex d
+    let kvs : List KV := if mt == "1" then [⟨[107], [118]⟩] else if mt == "2" then [⟨[107,45,98,105,110], [33,33]⟩] else []
+    some { id := id,
+           header := if hd == "1" then some { method := m, dst := d, src := [99], headers := kvs } else none,
+           body := if b == "1" then some [] else none,
+           trailer := if t == "1" then some [] else none,
+           reset := if r == "1" then some rstStream else if r == "2" then some [88] else none }
+  | _ => none
+
+def sortNats (l : List Nat) : List Nat := l.foldl (fun acc n => (acc.takeWhile (· ≤ n)) ++ [n] ++ (acc.dropWhile (· ≤ n))) []
+
+def showEffects (effs : List Classify.Effect) (alive : Bool) : String :=
+  let pick (f : Classify.Effect → Option Nat) := ",".intercalate ((sortNats (effs.filterMap f)).map toString)
+  "U:" ++ pick (fun | .invokeUnary i => some i | _ => none) ++
+  "|S:" ++ pick (fun | .startStream i => some i | _ => none) ++
+  "|R:" ++ pick (fun | .reset i => some i | _ => none) ++
+  "|E:" ++ pick (fun | .errorReply i => some i | _ => none) ++
+  "|C:" ++ pick (fun | .cancelStream i => some i | _ => none) ++
+  (if alive then "|alive" else "|dead")
+
 def evalOp (op input : String) : Option String :=
   match op with
   | "b64enc" => (parseHex input).map (fun b => hexOf (Base64.encode b))
@@ -137,6 +169,11 @@ def evalOp (op input : String) : Option String :=
         some (if lo ≤ (d : Int) ∧ (d : Int) ≤ hi then "in" else s!"out({d})")
       | some d, _ => some s!"out({d})"
     | _ => none
+  | "srvseq" => (parseList parseSeqEnv ";" input).map (fun es =>
+      let (effs, alive) := Classify.runSeq true echoView [] es
+      showEffects effs alive)
+  | "method" => (parseHex input).map (fun b => match Classify.parseRawMethod b with
+      | none => "ERR" | some (s, m) => hexOf s ++ "," ++ hexOf m)
   | "accC" => (parseList parseShape ";" input).map (fun l => if Protocol.accC l then "accept" else "reject")
   | "accS" => match input.splitOn "|" with
     | [u, l] => (parseList parseShape ";" l).map (fun l => if Protocol.accS (u == "unary") l then "accept" else "reject")
